@@ -4,7 +4,7 @@ run the quick checks, restore. Results -> /verif/mutation/RESULTS.json. /repo mu
 import json, os, subprocess, sys, time
 sys.path.insert(0, "/verif/mutation")
 from mutants import MUTANTS
-ALL = [f"C{i:02d}" for i in range(1, 21)]
+ALL = os.environ.get("CHECKS", "").split() or [f"C{i:02d}" for i in range(1, 21)]
 ENV = dict(os.environ, CARGO_NET_OFFLINE="true")
 only = sys.argv[1:] 
 res = json.load(open("/verif/mutation/RESULTS.json")) if os.path.exists("/verif/mutation/RESULTS.json") else {}
@@ -40,6 +40,11 @@ for (mid, f, old, new, desc) in MUTANTS:
     else:
         entry["tests"] = "killed by the test suite: " + out.strip()[:120]
     entry["wall_s"] = round(time.time() - t0)
+    if os.environ.get("CHECKS") and mid in res and "caught_by" in res[mid] and "caught_by" in entry:
+        # partial re-run: merge with the earlier full run
+        old = [c for c in res[mid]["caught_by"] if c.split("(")[0] not in ALL]
+        entry["caught_by"] = sorted(set(old + entry["caught_by"]))
+        entry["rerun_checks"] = ALL
     res[mid] = entry
     sh("git checkout -- .", cwd="/repo")
     json.dump(res, open("/verif/mutation/RESULTS.json", "w"), indent=1)
